@@ -16,14 +16,20 @@ import (
 	"github.com/EliCDavis/vector/vector3"
 )
 
-// FieldSpec describes one lattice field: a quantised ball, values in
-// {-2,-1,1,2}, evaluated with integer arithmetic on cell coordinates.
+// FieldSpec describes one lattice field: a quantised ball (or, with Axis set,
+// a quantised cylinder along that axis which the domain cuts off at both ends),
+// values in {-2,-1,1,2}, evaluated with integer arithmetic on cell coordinates.
+// Kinds "real" and "ring" have real (irrational) values: the true distance to
+// the ball / cylinder, or to a shell / tube wall around it.
 type FieldSpec struct {
 	Lo    [3]int `json:"lo"` // domain box in cells (world = cells / cubesPerUnit)
 	Hi    [3]int `json:"hi"`
 	Attrs []int  `json:"attrs"` // attribute ids (1 = position)
 	C2    [3]int `json:"c2"`    // 2 * centre, in cells
 	R2    int    `json:"r2"`    // 2 * radius, in cells
+	Axis  int    `json:"axis"`  // 0: ball; 1,2,3: cylinder along x,y,z
+	Kind  string `json:"fkind"` // "" lattice values | "real" | "ring"
+	Api   string `json:"api"`   // entry point used on the parallel canvas ("" = the case's)
 }
 
 // TriScale: triangle corners are logged in units of 1/TriScale cell. With
@@ -45,8 +51,22 @@ func fieldValue(fs FieldSpec, rank int, x, y, z int) float64 {
 	dx := 2*x - fs.C2[0] - 4*rank
 	dy := 2*y - fs.C2[1]
 	dz := 2*z - fs.C2[2] - 2*rank
+	switch fs.Axis {
+	case 1:
+		dx = 0
+	case 2:
+		dy = 0
+	case 3:
+		dz = 0
+	}
 	d2 := dx*dx + dy*dy + dz*dz
 	r := fs.R2
+	switch fs.Kind {
+	case "real": // the true distance to the ball / cylinder
+		return (math.Sqrt(float64(d2)) - float64(r)) / 2
+	case "ring": // a shell / tube wall, 3 cells thick, around radius r
+		return (math.Abs(math.Sqrt(float64(d2))-float64(r)) - 3) / 2
+	}
 	switch {
 	case r >= 2 && d2 < (r-2)*(r-2):
 		return -2
@@ -58,35 +78,152 @@ func fieldValue(fs FieldSpec, rank int, x, y, z int) float64 {
 	return 2
 }
 
-type sampleLog struct {
-	mu     sync.Mutex
-	counts map[[4]int]int
-	stamps []int64
-	ctr    atomic.Int64
-	offLat bool
+// sampleLog counts how often the field function of every attribute was
+// evaluated at every lattice point. Points inside the expected neighbourhood of
+// the domain are counted in a dense array (lock free: a field covering a whole
+// block is evaluated 10^6 times), anything else in a map.
+type denseBox struct {
+	lo, n [3]int
+	cnt   []int32
 }
 
-func newSampleLog() *sampleLog { return &sampleLog{counts: map[[4]int]int{}} }
+type sampleLog struct {
+	mu       sync.Mutex
+	counts   map[[4]int]int
+	dense    map[int]*denseBox // by attribute id; fixed before the call starts
+	returned atomic.Bool       // the judged call has returned
+	late     atomic.Int64      // evaluations that started after it had returned
+	offLat   atomic.Bool
+}
+
+const denseLimit = 1 << 23
+
+func newSampleLog(fs FieldSpec) *sampleLog {
+	l := &sampleLog{counts: map[[4]int]int{}, dense: map[int]*denseBox{}}
+	var d denseBox
+	vol := 1
+	for k := 0; k < 3; k++ {
+		d.lo[k] = fs.Lo[k] - 4
+		d.n[k] = fs.Hi[k] - fs.Lo[k] + 9
+		if d.n[k] < 1 {
+			return l
+		}
+		vol *= d.n[k]
+		if vol > denseLimit {
+			return l
+		}
+	}
+	for _, id := range fs.Attrs {
+		b := d
+		b.cnt = make([]int32, vol)
+		l.dense[id] = &b
+	}
+	return l
+}
 
 func (l *sampleLog) add(attr, x, y, z int) {
-	s := l.ctr.Add(1)
+	if l.returned.Load() {
+		l.late.Add(1)
+	}
+	if d := l.dense[attr]; d != nil {
+		i, j, k := x-d.lo[0], y-d.lo[1], z-d.lo[2]
+		if i >= 0 && i < d.n[0] && j >= 0 && j < d.n[1] && k >= 0 && k < d.n[2] {
+			atomic.AddInt32(&d.cnt[(k*d.n[1]+j)*d.n[0]+i], 1)
+			return
+		}
+	}
 	l.mu.Lock()
 	l.counts[[4]int{attr, x, y, z}]++
-	l.stamps = append(l.stamps, s)
 	l.mu.Unlock()
 }
 
-// sorted is the canonical (lossless) encoding of the multiset of sampled
-// lattice points: <<attr, x, y, z, count>> in lexicographic order.
-func (l *sampleLog) sorted() [][]int {
+// boxes is the canonical, lossless encoding of the multiset of evaluated
+// lattice points: <<attr, x0, x1, y0, y1, z0, z1, count>> (inclusive bounds)
+// in lexicographic order. It is a function of the multiset alone: maximal runs
+// of equal count along x; a run that recurs identically in consecutive rows y
+// becomes a rectangle; a rectangle that recurs identically in consecutive
+// slices z becomes a box. The multiset is the disjoint union of the boxes.
+func (l *sampleLog) boxes() [][]int {
 	l.mu.Lock()
 	defer l.mu.Unlock()
-	out := make([][]int, 0, len(l.counts))
-	for k, n := range l.counts {
-		out = append(out, []int{k[0], k[1], k[2], k[3], n})
+	type run struct{ a, z, y, x0, x1, c int }
+	runs := []run{}
+	for id, d := range l.dense {
+		for k := 0; k < d.n[2]; k++ {
+			for j := 0; j < d.n[1]; j++ {
+				row := d.cnt[(k*d.n[1]+j)*d.n[0] : (k*d.n[1]+j+1)*d.n[0]]
+				for i := 0; i < len(row); {
+					c := int(atomic.LoadInt32(&row[i]))
+					e := i + 1
+					for e < len(row) && int(atomic.LoadInt32(&row[e])) == c {
+						e++
+					}
+					if c != 0 {
+						runs = append(runs, run{id, d.lo[2] + k, d.lo[1] + j, d.lo[0] + i, d.lo[0] + e - 1, c})
+					}
+					i = e
+				}
+			}
+		}
+	}
+	for p, c := range l.counts {
+		runs = append(runs, run{p[0], p[3], p[2], p[1], p[1], c})
+	}
+	sort.Slice(runs, func(i, j int) bool {
+		a, b := runs[i], runs[j]
+		if a.a != b.a {
+			return a.a < b.a
+		}
+		if a.z != b.z {
+			return a.z < b.z
+		}
+		if a.y != b.y {
+			return a.y < b.y
+		}
+		return a.x0 < b.x0
+	})
+	// maximal runs along x (a dense run and a map point may touch)
+	mr := runs[:0]
+	for _, r := range runs {
+		if n := len(mr); n > 0 && mr[n-1].a == r.a && mr[n-1].z == r.z && mr[n-1].y == r.y && mr[n-1].c == r.c && mr[n-1].x1+1 == r.x0 {
+			mr[n-1].x1 = r.x1
+			continue
+		}
+		mr = append(mr, r)
+	}
+	// rectangles: identical runs in consecutive rows of one slice
+	type rect struct{ a, z, x0, x1, y0, y1, c int }
+	rects := []rect{}
+	open := map[[5]int]int{}
+	for _, r := range mr {
+		key := [5]int{r.a, r.z, r.x0, r.x1, r.c}
+		if p, ok := open[key]; ok && rects[p].y1+1 == r.y {
+			rects[p].y1 = r.y
+			continue
+		}
+		open[key] = len(rects)
+		rects = append(rects, rect{r.a, r.z, r.x0, r.x1, r.y, r.y, r.c})
+	}
+	sort.SliceStable(rects, func(i, j int) bool {
+		if rects[i].a != rects[j].a {
+			return rects[i].a < rects[j].a
+		}
+		return rects[i].z < rects[j].z
+	})
+	// boxes: identical rectangles in consecutive slices
+	out := [][]int{}
+	openB := map[[6]int]int{}
+	for _, r := range rects {
+		key := [6]int{r.a, r.x0, r.x1, r.y0, r.y1, r.c}
+		if p, ok := openB[key]; ok && out[p][6]+1 == r.z {
+			out[p][6] = r.z
+			continue
+		}
+		openB[key] = len(out)
+		out = append(out, []int{r.a, r.x0, r.x1, r.y0, r.y1, r.z, r.z, r.c})
 	}
 	sort.Slice(out, func(i, j int) bool {
-		for k := 0; k < 4; k++ {
+		for k := 0; k < 8; k++ {
 			if out[i][k] != out[j][k] {
 				return out[i][k] < out[j][k]
 			}
@@ -118,10 +255,10 @@ func mkField(c Case, fs FieldSpec, log *sampleLog, g *Gate) marching.Field {
 		fns[attrName(id)] = func(p vector3.Float64) float64 {
 			fx, fy, fz := p.X()*cpu, p.Y()*cpu, p.Z()*cpu
 			x, y, z := int(math.Round(fx)), int(math.Round(fy)), int(math.Round(fz))
-			if float64(x) != fx || float64(y) != fy || float64(z) != fz {
-				log.mu.Lock()
-				log.offLat = true
-				log.mu.Unlock()
+			// the canvas hands out cell/cubesPerUnit: times cubesPerUnit that is the cell again, up to
+			// one rounding when cubesPerUnit is not a power of two
+			if math.Abs(float64(x)-fx) > 1e-9 || math.Abs(float64(y)-fy) > 1e-9 || math.Abs(float64(z)-fz) > 1e-9 {
+				log.offLat.Store(true)
 			}
 			if g != nil {
 				b := [3]int{floorDiv(x, sectionCells) - bmin[0], floorDiv(y, sectionCells) - bmin[1], floorDiv(z, sectionCells) - bmin[2]}
@@ -156,7 +293,8 @@ func mkField(c Case, fs FieldSpec, log *sampleLog, g *Gate) marching.Field {
 type fieldLine struct {
 	K      string  `json:"k"`
 	Fi     int     `json:"fi"`
-	Seq    [][]int `json:"seq"`
+	Api    string  `json:"api"` // entry point that filled the parallel canvas with this field
+	Seq    [][]int `json:"seq"` // evaluated lattice points as boxes <<attr,x0,x1,y0,y1,z0,z1,count>>
 	Par    [][]int `json:"par"`
 	Sst    string  `json:"sst"`
 	Pst    string  `json:"pst"`
@@ -168,6 +306,7 @@ type fieldLine struct {
 type marchLine struct {
 	K    string  `json:"k"`
 	What string  `json:"what"` // ref | fieldpar | marchpar
+	Fi   int     `json:"fi"`   // marched after field fi had been added
 	Attr int     `json:"attr"`
 	Cut2 int     `json:"cut2"`
 	Proc int     `json:"procs"`
@@ -176,7 +315,40 @@ type marchLine struct {
 	Ex   bool    `json:"ex"`
 }
 
-func triangles(m modeling.Mesh, attr string, cpu int) (tris [][]int, ex bool) {
+// coordinate projections: lattice cases log a corner coordinate as one integer
+// in 1/TriScale cell; bit-exact cases (real-valued fields) log the IEEE bit
+// pattern of the float64 as three integers (22 + 21 + 21 bits, int32 safe).
+func latticeCoord(x, sc float64, ex *bool) []int {
+	r := math.Round(x * sc)
+	if math.Abs(x*sc-r) > 1e-5 || math.Abs(r) > 2e9 {
+		*ex = false
+		if math.IsNaN(r) || math.Abs(r) > 2e9 {
+			r = 2e9
+		}
+	}
+	return []int{int(r)}
+}
+
+func bitsCoord(x float64) []int {
+	b := math.Float64bits(x)
+	return []int{int(b >> 42), int((b >> 21) & (1<<21 - 1)), int(b & (1<<21 - 1))}
+}
+
+func lexLess(a, b []int) bool {
+	for k := 0; k < len(a) && k < len(b); k++ {
+		if a[k] != b[k] {
+			return a[k] < b[k]
+		}
+	}
+	return len(a) < len(b)
+}
+
+// triangles projects a mesh to a list of triangles, each the concatenation of
+// its three corners. The list is written in the canonical form of the triangle
+// multiset (each triangle rotated so that the least of its three corner
+// rotations comes first, then the list sorted): lossless up to what the
+// contract leaves free, and TracePar checks the form before it relies on it.
+func triangles(m modeling.Mesh, attr string, cpu int, bits bool) (tris [][]int, ex bool) {
 	tris = [][]int{}
 	ex = true
 	if m.PrimitiveCount() == 0 || !m.HasFloat3Attribute(attr) {
@@ -186,19 +358,30 @@ func triangles(m modeling.Mesh, attr string, cpu int) (tris [][]int, ex bool) {
 	pos := m.Float3Attribute(attr)
 	sc := float64(cpu) * TriScale
 	for t := 0; t+2 < idx.Len(); t += 3 {
-		tri := make([]int, 0, 9)
+		var corner [3][]int
 		for k := 0; k < 3; k++ {
 			p := pos.At(idx.At(t + k))
 			for _, x := range []float64{p.X(), p.Y(), p.Z()} {
-				r := math.Round(x * sc)
-				if math.Abs(x*sc-r) > 1e-5 || math.Abs(r) > 2e9 {
-					ex = false
+				if bits {
+					corner[k] = append(corner[k], bitsCoord(x)...)
+				} else {
+					corner[k] = append(corner[k], latticeCoord(x, sc, &ex)...)
 				}
-				tri = append(tri, int(r))
 			}
 		}
-		tris = append(tris, tri)
+		var best []int
+		for r := 0; r < 3; r++ {
+			tri := make([]int, 0, 3*len(corner[0]))
+			for k := 0; k < 3; k++ {
+				tri = append(tri, corner[(r+k)%3]...)
+			}
+			if best == nil || lexLess(tri, best) {
+				best = tri
+			}
+		}
+		tris = append(tris, best)
 	}
+	sort.Slice(tris, func(i, j int) bool { return lexLess(tris[i], tris[j]) })
 	return
 }
 
@@ -208,7 +391,7 @@ const marchLimit = 120 * time.Second
 
 // marchOnce returns false when the call did not return within caseLimit (the
 // goroutine is left behind, so the process must not continue).
-func marchOnce(out *Writer, c Case, cv *marching.MarchingCanvas, what string, attr, cut2, procs int, par bool) bool {
+func marchOnce(out *Writer, c Case, cv *marching.MarchingCanvas, what string, fi, attr, cut2, procs int, par bool) bool {
 	name := attrName(attr)
 	var m modeling.Mesh
 	if procs > 0 {
@@ -226,10 +409,10 @@ func marchOnce(out *Writer, c Case, cv *marching.MarchingCanvas, what string, at
 	case <-done:
 	case <-time.After(marchLimit):
 		// a marching call that never returns is an observation, not a harness failure
-		out.Encode(marchLine{K: "march", What: what, Attr: attr, Cut2: cut2, Proc: procs, Tris: [][]int{}, St: "TIMEOUT", Ex: true})
+		out.Encode(marchLine{K: "march", What: what, Fi: fi, Attr: attr, Cut2: cut2, Proc: procs, Tris: [][]int{}, St: "TIMEOUT", Ex: true})
 		return false
 	}
-	line := marchLine{K: "march", What: what, Attr: attr, Cut2: cut2, Proc: procs, Tris: [][]int{}, St: *st, Ex: true}
+	line := marchLine{K: "march", What: what, Fi: fi, Attr: attr, Cut2: cut2, Proc: procs, Tris: [][]int{}, St: *st, Ex: true}
 	if *st == "OK" {
 		func() {
 			defer func() {
@@ -237,7 +420,7 @@ func marchOnce(out *Writer, c Case, cv *marching.MarchingCanvas, what string, at
 					line.St = "FAIL"
 				}
 			}()
-			line.Tris, line.Ex = triangles(m, name, c.Cpu)
+			line.Tris, line.Ex = triangles(m, name, c.Cpu, c.Bits)
 		}()
 	}
 	out.Encode(line)
@@ -245,36 +428,50 @@ func marchOnce(out *Writer, c Case, cv *marching.MarchingCanvas, what string, at
 }
 
 // runField executes one field case: every field is accumulated sequentially
-// into one canvas and with the parallel entry point into another; then both
-// canvases are marched.
+// into one canvas and with the parallel entry point into another (several
+// fields: one after the other into the SAME two canvases); then both canvases
+// are marched (MarchEvery: after every field, not only after the last).
 func runField(out *Writer, c Case, raw json.RawMessage) bool {
 	out.Encode(caseLine{K: "case", C: raw, NumCPU: runtime.NumCPU()})
 	seqCv := marching.NewMarchingCanvas(float64(c.Cpu))
 	parCv := marching.NewMarchingCanvas(float64(c.Cpu))
 	for fi, fs := range c.Fields {
-		line := fieldLine{K: "field", Fi: fi, Seq: [][]int{}, Par: [][]int{}, Sst: "SKIP", Pst: "OK", Jobs: []int{}}
+		api := fs.Api
+		if api == "" {
+			api = c.Api
+		}
+		line := fieldLine{K: "field", Fi: fi, Api: api, Seq: [][]int{}, Par: [][]int{}, Sst: "SKIP", Pst: "OK", Jobs: []int{}}
 		if !c.NoSeq {
-			sl := newSampleLog()
+			sl := newSampleLog(fs)
 			done, st := guarded(func() { seqCv.AddField(mkField(c, fs, sl, nil)) })
 			<-done
-			line.Seq, line.Sst = sl.sorted(), *st
-			line.OffLat = sl.offLat
+			line.Seq, line.Sst = sl.boxes(), *st
+			line.OffLat = sl.offLat.Load()
 		}
-		pl := newSampleLog()
+		pl := newSampleLog(fs)
+		// a hang is an observation (TIMEOUT); the deadline grows with the number of samples so that a
+		// whole-block field on a loaded machine (or under the race detector) is not mistaken for one
+		limit := caseLimit
+		if vol := (fs.Hi[0] - fs.Lo[0] + 2) * (fs.Hi[1] - fs.Lo[1] + 2) * (fs.Hi[2] - fs.Lo[2] + 2) * len(fs.Attrs); vol > 0 {
+			limit += time.Duration(vol/50000) * time.Second
+		}
 		var g *Gate
-		if c.Gated {
+		if c.Gated && api != "AddField" {
 			g = &Gate{}
 		}
 		field := mkField(c, fs, pl, g)
 		done, st := guarded(func() {
-			if c.Api == "AddFieldParallel2" {
+			switch api {
+			case "AddFieldParallel2":
 				parCv.AddFieldParallel2(field)
-			} else {
+			case "AddField":
+				parCv.AddField(field)
+			default:
 				parCv.AddFieldParallel(field)
 			}
 		})
 		status := "OK"
-		if c.Gated {
+		if g != nil {
 			rank := map[int]int{}
 			for r, k := range c.Prio {
 				if _, ok := rank[k]; !ok {
@@ -286,13 +483,13 @@ func runField(out *Writer, c Case, raw json.RawMessage) bool {
 					return r
 				}
 				return 1 << 30
-			}, nil, caseLimit, func(key int, _ []int, late bool) {
+			}, nil, limit, func(key int, _ []int, late bool) {
 				line.Jobs = append(line.Jobs, key)
 			})
 		} else {
 			select {
 			case <-done:
-			case <-time.After(caseLimit):
+			case <-time.After(limit):
 				status = "TIMEOUT"
 			}
 		}
@@ -301,35 +498,34 @@ func runField(out *Writer, c Case, raw json.RawMessage) bool {
 			out.Encode(line)
 			return false
 		}
-		ret := pl.ctr.Add(1)
+		pl.returned.Store(true)
 		time.Sleep(settleDone)
-		line.Par, line.Pst = pl.sorted(), *st
-		pl.mu.Lock()
-		for _, s := range pl.stamps {
-			if s > ret {
-				line.Late++
+		line.Par, line.Pst = pl.boxes(), *st
+		line.Late = int(pl.late.Load())
+		line.OffLat = line.OffLat || pl.offLat.Load()
+		out.Encode(line)
+		if c.March && (c.MarchEvery || fi == len(c.Fields)-1) {
+			if !marchAll(out, c, fi, seqCv, parCv) {
+				return false
 			}
 		}
-		line.OffLat = line.OffLat || pl.offLat
-		pl.mu.Unlock()
-		out.Encode(line)
 	}
-	if !c.March {
-		return true
-	}
-	ids := c.MAttrs
-	for _, a := range ids {
+	return true
+}
+
+func marchAll(out *Writer, c Case, fi int, seqCv, parCv *marching.MarchingCanvas) bool {
+	for _, a := range c.MAttrs {
 		for _, cut2 := range c.Cuts2 {
 			if !c.NoSeq {
-				if !marchOnce(out, c, seqCv, "ref", a, cut2, 0, false) {
+				if !marchOnce(out, c, seqCv, "ref", fi, a, cut2, 0, false) {
 					return false
 				}
-				if !marchOnce(out, c, parCv, "fieldpar", a, cut2, 0, false) {
+				if !marchOnce(out, c, parCv, "fieldpar", fi, a, cut2, 0, false) {
 					return false
 				}
 			}
 			for _, p := range c.Reps {
-				if !marchOnce(out, c, seqOr(c, seqCv, parCv), "marchpar", a, cut2, p, true) {
+				if !marchOnce(out, c, seqOr(c, seqCv, parCv), "marchpar", fi, a, cut2, p, true) {
 					return false
 				}
 			}
